@@ -59,6 +59,7 @@ def main(argv):
     jobs = {
         "Utils": lambda: funcs.generate_utils(src("utils.py")),
         "IndexImpl": lambda: classes.generate_index(src("index.py")),
+        "DatabaseImpl": lambda: classes.generate_database(src("database.py")),
     }
     jobs.update(tables.jobs(src))
     ok = True
